@@ -304,7 +304,7 @@ CHECK_DEADLOCK FALSE
     gen, distinct = core.tlc_stats(lines)
     out.add_design(gen, distinct)
     out.parts.append({"design": f"MC_Api MaxOps={maxops} V4={v4}: CfbApi (lib.rs's path normalisation, lookups, argument checks in the code's order, the loops of "
-                                "create_storage_all / remove_storage_all, setters - on CfbPhys at tiny geometry) refines CfbTree: every call of the alphabet (13 methods "
+                                "create_storage_all / remove_storage_all, setters - on CfbPhys at tiny geometry) refines CfbTree: every call of the alphabet (16 methods "
                                 "x paths with '.', '..', a case variant, an invalid name, nested and stream parents) in every reachable state gets an allowed result "
                                 "kind, a refusal leaves the physical state untouched, the physical state abstracts to the abstract tree (names, kinds, lengths, metadata)",
                       "invariants": invs, "states": distinct, "transitions": gen})
